@@ -3,6 +3,7 @@ package main
 import (
 	"fmt"
 	"go/token"
+	"go/types"
 	"regexp"
 	"sort"
 	"strings"
@@ -310,6 +311,12 @@ func checkC03(c *Ctx, r *Report) {
 	checkMd5sumsNames(c, r, pa)
 	checkMtree(c, r, pa)
 	checkSizes(c, r, pa)
+	// the data segment whose digest .PKGINFO announces is the one shipped:
+	// the buffers the segments were written into are concatenated, all of
+	// them, on every path (shared with C10)
+	r.Floor("shipped-F12-apk", importRules(c, r, checkC10, "shipped-", []string{"F12-apk"}, func(o Obligation) bool {
+		return strings.Contains(o.Construct, "segment order of concatenation")
+	}, "apk segments"), 1)
 }
 
 func uniqStrings(s []string) []string {
@@ -556,6 +563,7 @@ func checkMtree(c *Ctx, r *Report, pa *provAnalysis) {
 		})
 	}
 	r.Floor("F8", n, 3)
+	checkMtreeLines(c, r)
 	// digests go to the field of their own algorithm; sizes come from one value
 	for _, fn := range sortedFuncs(c, c.Reach(pk.Package)) {
 		forEachInstr(fn, func(in ssa.Instruction) {
@@ -841,4 +849,54 @@ func checkSizes(c *Ctx, r *Report, pa *provAnalysis) {
 		}
 		r.Check(ok, "F9", format+": installed size accumulates the entries' sizes", c.pos(pk.Package.Pos()), "the size reported in the metadata must be the sum of Content.Size() over the copied entries")
 	}
+}
+
+// checkMtreeLines: "one line per payload entry": the mtree line writer,
+// evaluated for every entry type the archlinux payload writer ships, reaches
+// a formatted write; for a shipped type no path may end without a line.
+func checkMtreeLines(c *Ctx, r *Report) {
+	pk := c.PackagerByFormat("archlinux")
+	if pk == nil {
+		return
+	}
+	mt := c.NamedType(strings.TrimPrefix(pk.PkgPath, modPath+"/"), "MtreeEntry")
+	var wt *ssa.Function
+	for _, fn := range sortedFuncs(c, c.Reach(pk.Package)) {
+		if fn.Signature.Recv() != nil && mt != nil && types.Identical(derefType(fn.Signature.Recv().Type()), mt) {
+			writes := false
+			forEachInstr(fn, func(in ssa.Instruction) {
+				if call, ok := in.(*ssa.Call); ok && calleeIs(call, "fmt", "", "Fprintf") {
+					writes = true
+				}
+			})
+			if writes {
+				wt = fn
+			}
+		}
+	}
+	if wt == nil || mt == nil {
+		r.Unresolved("archlinux mtree line writer", "no method of MtreeEntry formats lines")
+		return
+	}
+	n := 0
+	for _, typ := range preparedTypes {
+		switch specPayload("archlinux", typ) {
+		case "DIR", "LINK", "FILE":
+		default:
+			continue
+		}
+		n++
+		ev := newEvaluator(c)
+		obj := newAObj("entry")
+		obj.Fields["Type"] = cStr(typ)
+		ev.Defaults[types.TypeString(types.NewPointer(mt), nil)] = obj
+		fr := ev.Explore(wt, make([]AV, len(wt.Params)))
+		must := fr != nil && fr.MustReach(func(in ssa.Instruction, _ *Frame) bool {
+			call, ok := in.(*ssa.Call)
+			return ok && (calleeIs(call, "fmt", "", "Fprintf") || calleeIs(call, "fmt", "", "Fprint") || calleeIs(call, "io", "", "WriteString"))
+		})
+		r.Check(must, "F8-line", fmt.Sprintf("archlinux mtree line for a shipped entry of type %q", typ), c.pos(wt.Pos()),
+			"every path through the line writer must write a line for this type: the payload writer ships such entries, an entry without a line is missing from .MTREE")
+	}
+	r.Floor("F8-line", n, 6)
 }
